@@ -887,12 +887,14 @@ func (g *G) genWorkloads() {
 		g.c.Objects.Pods = append(g.c.Objects.Pods, w.pods...)
 	}
 	for ci, cc := range classes {
+		compPrio := ""
 		if g.p(0.4) {
 			// a companion in the clones' leaf queue: an older workload with two sub-groups of which one runs above its
 			// minimum and the other is below it (a worker was lost, its replacement is pending). It is not a clone; it
 			// is what the job comparators of the queue have to rank the clones against.
-			g.mixedSubGroupCompanion(fmt.Sprintf("comp%d", ci), cc.queue, cc.preemp, &wid)
+			compPrio = g.mixedSubGroupCompanion(fmt.Sprintf("comp%d", ci), cc.queue, cc.preemp, &wid)
 		}
+		sameAsCompanion := compPrio != "" && g.p(0.7) // the clones compete with the companion at its priority
 		for j := 0; j < cc.count; j++ {
 			prio := pick(g, []string{"p-train", "p-train", "p-mid", "p-low", "p-99"})
 			if cc.preemp == enginev2alpha2.NonPreemptible || (cc.preemp == "" && g.p(0.2)) {
@@ -901,6 +903,9 @@ func (g *G) genWorkloads() {
 			if cc.preemp != "" && g.p(g.k.PExtremePriority) {
 				// explicit preemptibility keeps the clones comparable whatever the priority value
 				prio = g.extremePC()
+			}
+			if sameAsCompanion {
+				prio = compPrio
 			}
 			created := g.now.Add(-time.Duration(g.in(1, 500)) * time.Minute)
 			// clones are always pending: the oracle compares pending workloads only
@@ -1310,7 +1315,7 @@ func (g *G) preplace(w *workload) bool {
 
 // mixedSubGroupCompanion adds a partially running workload with sub-groups sa (min 1, two running pods: above its
 // minimum) and sb (min 2, one running and one pending pod: below it), cpu-only pods, older than every clone.
-func (g *G) mixedSubGroupCompanion(name, queue string, preemp enginev2alpha2.Preemptibility, wid *int) {
+func (g *G) mixedSubGroupCompanion(name, queue string, preemp enginev2alpha2.Preemptibility, wid *int) string {
 	prio := pick(g, []string{"p-train", "p-train", "p-mid", "p-low"})
 	if preemp == enginev2alpha2.NonPreemptible {
 		prio = "p-build"
@@ -1338,7 +1343,7 @@ func (g *G) mixedSubGroupCompanion(name, queue string, preemp enginev2alpha2.Pre
 				}
 			}
 			if !ok {
-				return // no room for the running part: no companion in this case
+				return "" // no room for the running part: no companion in this case
 			}
 		}
 		pods = append(pods, p)
@@ -1348,4 +1353,5 @@ func (g *G) mixedSubGroupCompanion(name, queue string, preemp enginev2alpha2.Pre
 	}
 	g.c.Objects.PodGroups = append(g.c.Objects.PodGroups, pg)
 	g.c.Objects.Pods = append(g.c.Objects.Pods, pods...)
+	return prio
 }
